@@ -225,7 +225,13 @@ pub fn run_bytes(req: &J) -> J {
   for m in muts.iter() {
     let b = apply(&base, m);
     let same = b == base;
+    let took_alloc_failure = || crate::ALLOC_FAILED.swap(false, std::sync::atomic::Ordering::SeqCst);
+    took_alloc_failure();
     let l = catch_unwind(AssertUnwindSafe(|| ParsedProgram::from_bytes(&b)));
+    if took_alloc_failure() {
+      res.push(json!({"o":"oom","stage":"load","same":same,"msg":"an allocation failed under the worker's address-space limit"}));
+      continue;
+    }
     match l {
       Ok(Err(e)) => res.push(json!({"o":"reject","same":same,"class":e.kind_name()})),
       Err(p) => {
@@ -235,6 +241,7 @@ pub fn run_bytes(req: &J) -> J {
       Ok(Ok(prog)) => {
         let mut o = json!({"o":"accept","same":same});
         let d = catch_unwind(AssertUnwindSafe(|| prog.decode_const_entries()));
+        let d_oom = took_alloc_failure();
         match d {
           Ok(Ok(_)) => o["decode"] = json!("ok"),
           Ok(Err(_)) => o["decode"] = json!("err"),
@@ -244,6 +251,7 @@ pub fn run_bytes(req: &J) -> J {
             o["msg"] = json!(msg);
           }
         }
+        if d_oom { o["decode"] = json!("oom"); }
         let re = catch_unwind(AssertUnwindSafe(|| prog.to_bytes()));
         match re {
           Ok(Ok(rb)) => o["reenc_eq"] = json!(rb == b),
@@ -262,6 +270,7 @@ pub fn run_bytes(req: &J) -> J {
               o["msg"] = json!(msg);
             }
           }
+          if took_alloc_failure() { o["run"] = json!("oom"); }
         }
         res.push(o);
       }
